@@ -66,7 +66,7 @@ def native_run(h, tests, release):
     for name, _ in tests:
         try:
             p = subprocess.run(["cargo", "kani", "playback", "-Z", "concrete-playback", "--", name],
-                               cwd=d, env=env, capture_output=True, text=True, timeout=900)
+                               cwd=d, env=env, capture_output=True, text=True, timeout=int(os.environ.get("VERIF_PLAYBACK_TIMEOUT_S", "300")))
             txt = (p.stdout + p.stderr)
             lines = txt.splitlines()
             tail = []
